@@ -145,6 +145,8 @@ class PathResult(object):
 
   def term_of_number(self, x):
     """Map a number read back from formatted output to its z3 term."""
+    if isinstance(x, SReal):
+      x = builtins.float(x)     # the proxy itself came back (e.g. from a workbook cell): use its tag
     xi = int(round(x))
     if abs(x - xi) < 1e-6 and xi in self.tags:
       return self.tags[xi]
@@ -241,6 +243,8 @@ def term(x):
     return z3.If(x.t, z3.RealVal(1), z3.RealVal(0))
   if isinstance(x, (int, float)):
     return rv(x)
+  if isinstance(x, z3.ArithRef):
+    return z3.ToReal(x) if x.is_int() else x
   raise HarnessError("cannot make a term of %r" % (type(x),))
 
 
